@@ -51,6 +51,10 @@ type Profile struct {
 	Template string
 	Holes    [][]string
 	MaxDev   int // 0: full product
+	// Optional: fragments defined by the template that are dropped from a rendered document
+	// when nothing spreads them (otherwise every such document would be invalid for the
+	// unused fragment alone and the profile would say nothing about its own rules).
+	Optional []string
 }
 
 // Size is the number of documents of the profile.
@@ -74,7 +78,61 @@ func (p *Profile) Render(choice []int) string {
 			s = strings.ReplaceAll(s, "§"+itoa(i), p.Holes[i][choice[i]])
 		}
 	}
-	return s
+	return p.prune(s)
+}
+
+// prune removes the optional template fragments that nothing spreads (to a fixpoint).
+func (p *Profile) prune(doc string) string {
+	for changed := true; changed; {
+		changed = false
+		for _, name := range p.Optional {
+			def := "fragment " + name + " on "
+			i := strings.Index(doc, def)
+			if i < 0 {
+				continue
+			}
+			// end of the definition: the matching closing brace
+			j := strings.IndexByte(doc[i:], '{')
+			if j < 0 {
+				continue
+			}
+			depth, end := 0, -1
+			for k := i + j; k < len(doc); k++ {
+				if doc[k] == '{' {
+					depth++
+				} else if doc[k] == '}' {
+					depth--
+					if depth == 0 {
+						end = k + 1
+						break
+					}
+				}
+			}
+			if end < 0 {
+				continue
+			}
+			rest := doc[:i] + doc[end:]
+			if !spreads(rest, name) {
+				doc = rest
+				changed = true
+			}
+		}
+	}
+	return doc
+}
+
+func spreads(doc, name string) bool {
+	for k := 0; ; {
+		i := strings.Index(doc[k:], "..."+name)
+		if i < 0 {
+			return false
+		}
+		e := k + i + 3 + len(name)
+		if e >= len(doc) || !(doc[e] == '_' || doc[e] >= '0' && doc[e] <= '9' || doc[e] >= 'a' && doc[e] <= 'z' || doc[e] >= 'A' && doc[e] <= 'Z') {
+			return true
+		}
+		k = e
+	}
 }
 
 func itoa(i int) string {
@@ -167,9 +225,9 @@ var dirMenu = []string{
 
 var ValidProfiles = []Profile{
 	{Name: "fields", Template: `query Q { §0 §1 }`, Holes: [][]string{fieldSel, append([]string{``}, fieldSel...)}},
-	{Name: "overlap-same-parent", Template: `query Q($t: Boolean, $u: Boolean = true) { pet { §0 } pet { §1 } ok: pet { name(short: $t) ok2: name(short: $u) } } fragment PF on Pet { n: name nick }`, Holes: [][]string{overlapSel, overlapSel}},
-	{Name: "overlap-exclusive", Template: `query Q($t: Boolean, $u: Boolean = true) { search { ... on Pet { §0 } ... on Person { §1 } } u: pet { name(short: $t) v: name(short: $u) } } fragment PF on Pet { n: name nick }`, Holes: [][]string{overlapSel, overlapSel}},
-	{Name: "overlap-interface", Template: `query Q($t: Boolean, $u: Boolean = true) { named { ... on Pet { §0 } ... on Named { §1 } } u: pet { name(short: $t) v: name(short: $u) } } fragment PF on Pet { n: name nick }`, Holes: [][]string{overlapSel, []string{`id`, `n: name`, `name`, `name(short: true)`, `n: id`, `nick`, `... on Person { n: nick }`, `name(short: $t)`}}},
+	{Name: "overlap-same-parent", Template: `query Q($t: Boolean, $u: Boolean = true) { pet { §0 } pet { §1 } ok: pet { name(short: $t) ok2: name(short: $u) } } fragment PF on Pet { n: name nick }`, Holes: [][]string{overlapSel, overlapSel}, Optional: []string{"PF"}},
+	{Name: "overlap-exclusive", Template: `query Q($t: Boolean, $u: Boolean = true) { search { ... on Pet { §0 } ... on Person { §1 } } u: pet { name(short: $t) v: name(short: $u) } } fragment PF on Pet { n: name nick }`, Holes: [][]string{overlapSel, overlapSel}, Optional: []string{"PF"}},
+	{Name: "overlap-interface", Template: `query Q($t: Boolean, $u: Boolean = true) { named { ... on Pet { §0 } ... on Named { §1 } } u: pet { name(short: $t) v: name(short: $u) } } fragment PF on Pet { n: name nick }`, Holes: [][]string{overlapSel, []string{`id`, `n: name`, `name`, `name(short: true)`, `n: id`, `nick`, `... on Person { n: nick }`, `name(short: $t)`}}, Optional: []string{"PF"}},
 	{Name: "overlap-fragment-pairs", Template: `query Q { §0 §1 } §2`, Holes: [][]string{
 		{`search { ... on Pet { o: owner { §3 } } ... on Person { o: friend { §4 } } }`, `a: id`, `search { ... on Pet { o: owner { §3 } } ... on Pet { o: owner { §4 } } }`},
 		{`person { §5 }`, `b: id`, `person { friend { §5 } friend { §6 } }`},
@@ -182,8 +240,19 @@ var ValidProfiles = []Profile{
 			`fragment A on Person { n: age } fragment B on Person { n: nick } fragment C on Person { id }`,
 			`fragment A on Person { n: age friend { ...B } } fragment B on Person { n: nick m: id } fragment C on Person { m: name }`},
 		{`...A`, `...B`, `...C`, `id`}, {`...B`, `...A`, `...C`, `id`}, {`...A ...B`, `...A`, `...B ...C`, `...C ...A`, `id`}, {`...B`, `...C`, `id`},
-	}},
+	}, Optional: []string{"A", "B", "C"}},
 	{Name: "overlap-arguments", Template: `query Q($a: String, $b: String) { §0 §1 u: search(q: $a) { __typename } v: search(q: $b) { __typename } }`, Holes: [][]string{overlapArgs, overlapArgs}},
+	{Name: "overlap-repeated-fragment", Template: `query Q { person { §0 §1 §2 } } fragment F on Person { §3 } fragment G on Person { ...F }`, Holes: [][]string{
+		{`friend { ...F }`, `friend { ...G }`, `friend { id }`, ``},
+		{`friend { ...F }`, `friend { ...G }`, `friend { x: id }`, ``},
+		{`x: name ...F`, `...F x: name`, `x: age ...F`, `x: nick`, `...G x: age`, `...F`, `x: name ...G`},
+		{`x: nick`, `x: age`, `x: name`, `id`, `x: nick friend { x: name }`},
+	}, Optional: []string{"F", "G"}},
+	{Name: "multi-conflict", Template: `query Q { pet { §0 §1 §2 } }`, Holes: [][]string{
+		{`a: name a: nick`, `a: name`, `a: id a: kind`},
+		{`b: id b: kind`, `b: id`, `b: name b: tags`},
+		{`c: owner { id } c: tags`, `c: tags`, `c: owner { n: age } c: owner { n: name }`, `d: nick d: name e: id e: kind`},
+	}},
 	{Name: "arguments", Template: `query Q($k: Kind, $i: Int) { §0 §1 }`, Holes: [][]string{
 		{`node(id: 1) { id }`, `node { id }`, `node(idd: 1) { id }`, `node(id: 1, id: 2) { id }`, `node(id: null) { id }`, `node(id: $i) { id }`, `node(id: "x", extra: 1) { id }`},
 		{`req(a: 1)`, `req`, `req(b: 1)`, `req(a: 1, b: null)`, `req(a: null)`, `req(a: $i)`, `req(a: 1, b: $i)`, `pet(kind: CAT) { id }`, `pet(kind: BAD) { id }`, `pet(kind: "DOG") { id }`, `pet(kind: 1) { id }`, `pet(kind: null) { id }`, `pet(kind: $k) { id }`, `pet(kind: $i) { id }`, `req(a: 1, a: 2)`, `id(x: 1)`, `r: req(a: $k)`},
@@ -192,8 +261,8 @@ var ValidProfiles = []Profile{
 	{Name: "variables", Template: `query Q(§0) { §1 §2 } fragment VF on Query { req(a: $a) } fragment VG on Query { ...VF }`, Holes: [][]string{
 		{`$a: Int!`, `$a: Int`, `$a: Int = 1`, `$a: Int! = 1`, `$a: Int = null`, `$a: Nope`, `$a: Pet`, `$a: [Int!]`, `$a: String`, `$a: Int!, $a: Int!`, `$a: Int!, $k: Kind = DOG`, `$a: Int!, $f: Filter = {req: true}`, `$a: Int! = "s"`, `$a: [Int]! = [1, null]`, `$a: Int!, $z: Int`, `$a: ID!`, `$a: Float!`, `$a: Int! @tag(name: "v")`, `$a: Int! @once`, `$a: Kind! = BAD`, `$a: Filter = {name: 1}`, `$a: [[Int]!]`, `$a: [Int]`, `$a: Boolean!`},
 		{`req(a: $a)`, `r2: req(a: 1, b: $a)`, `search(n: $a) { __typename }`, `search(q: $a) { __typename }`, `list(xs: [[$a]])`, `list(xs: $a)`, `search(f: {req: true, min: $a}) { __typename }`, `...VF`, `...VG`, `id @tag(name: "x", n: $a)`, `id`, `node(id: $b) { id }`, `search(ks: [$a]) { __typename }`, `one(arg: {a: $a})`, `search(i: $a, fl: $a) { __typename }`, `pet(kind: $a) { id }`, `id @skip(if: $a)`, `search(f: {req: $a}) { __typename }`, `list(xs: [$a])`},
-		{``, `r3: req(a: $a)`, `k: pet(kind: $k) { id }`, `ff: search(f: $f) { __typename }`, `...VF`},
-	}},
+		{``, `r3: req(a: $a)`, `k: pet(kind: $k) { id }`, `ff: search(f: $f) { __typename }`, `...VF`, `o: one(arg: {a: $a})`, `o2: one(arg: {b: $a})`},
+	}, Optional: []string{"VF", "VG"}},
 	{Name: "fragments", Template: `query Q { §0 } §1 §2`, Holes: [][]string{
 		{`...F`, `id`, `...G`, `...Nope`, `node(id: 1) { ...F }`, `pet { ...F }`, `search { ...F }`, `named { ... on Person { id } }`, `pet { ... on Person { id } }`, `node(id: 1) { ... on Kind { x } }`, `...A`, `pet { ...F ...F }`, `... on Query { ...F }`, `... { ...F }`, `... on Pet { id }`, `person { ...F }`, `search { ...H }`, `...F ...G`, `named { ...I }`, `pet { ...I }`, `node(id: 1) { ...J }`},
 		{`fragment F on Query { id }`, `fragment F on Pet { id }`, `fragment F on Nope { id }`, `fragment F on Kind { x }`, `fragment F on Query { ...F }`, `fragment F on Query { id } fragment F on Query { id }`, ``, `fragment F on Filter { name }`, `fragment F on Query { pet { ...F } }`, `fragment F on Node { id }`, `fragment F on Result { __typename }`, `fragment F on Query { id ...G }`},
@@ -205,14 +274,38 @@ var ValidProfiles = []Profile{
 	{Name: "operations", Template: `§0 §1 fragment SF on Subscription { tick tock } fragment SG on Subscription { tick }`, Holes: [][]string{
 		{`query A { id }`, `{ id }`, `query A { node }`, `mutation M { set(in: {req: true}) { id } }`, `subscription S { tick }`, `subscription S { tick tock }`, `subscription S { tick t2: tick }`, `subscription S { ...SF }`, `subscription S { ...SG }`, `subscription S { __typename }`, `subscription S { tick ...SG }`, `subscription S { ... on Subscription { tick } tock }`, `subscription { tick }`, `mutation { set(in: {req: true}) { id } }`, `subscription S { tick @skip(if: true) }`, `subscription S { pet { id name } }`, `subscription S { tick(every: 1) tick(every: 2) }`, `query ($x: Int) { id }`},
 		{`query SFu { ...X1 ...X2 } fragment X1 on Query { id } fragment X2 on Query { id } query U { s: id ... on Subscription { tick } }`, ``, `query A { id }`, `query B { id }`, `{ id }`, `mutation A { set(in: {req: true}) { id } }`, `subscription T { tock }`, `fragment A on Query { id } query UA { ...A }`},
-	}},
-	{Name: "introspection", Template: `query Q { §0 } §1`, Holes: [][]string{
-		{`__schema { types { name } }`, `__schema { types { fields { type { fields { type { fields { name } } } } } } }`, `__schema { types { fields { type { fields { name } } } } }`, `__type(name: "Q") { fields { type { fields { type { fields { name } } } } } }`,
-			`__schema { types { ...T1 } }`, `__schema { queryType { interfaces { interfaces { interfaces { name } } } } }`, `__schema { types { possibleTypes { possibleTypes { possibleTypes { name } } } } }`, `__schema { types { inputFields { type { inputFields { type { inputFields { name } } } } } } }`,
-			`__schema { types { fields { type { interfaces { possibleTypes { name } } } } } }`, `__schema { types { ...T3 } }`, `a: __schema { types { fields { name } } } b: __schema { types { fields { name } } }`, `__typename`, `__schema { types { ofType { ofType { ofType { ofType { name } } } } } }`, `pet { __typename }`, `__schema { types { ...TC } }`},
-		{`fragment T1 on __Type { fields { type { ...T2 } } } fragment T2 on __Type { fields { type { fields { name } } } } fragment T3 on __Type { fields { type { fields { type { name } } } } } fragment TC on __Type { name }`,
-			`fragment T1 on __Type { fields { type { ...T2 } } } fragment T2 on __Type { fields { name } } fragment T3 on __Type { name } fragment TC on __Type { fields { type { ...TC } } }`},
-	}},
+	}, Optional: []string{"SF", "SG"}},
+	{Name: "introspection", Template: `§0`, Holes: [][]string{{
+		`{ __schema { types { name } } }`,
+		`{ __schema { types { fields { type { fields { type { fields { name } } } } } } } }`,
+		`{ __schema { types { fields { type { fields { name } } } } } }`,
+		`{ __type(name: "Q") { fields { type { fields { type { fields { name } } } } } } }`,
+		`{ __type(name: "Q") { fields { type { fields { type { name } } } } } }`,
+		`{ __schema { queryType { interfaces { interfaces { interfaces { name } } } } } }`,
+		`{ __schema { types { possibleTypes { possibleTypes { possibleTypes { name } } } } } }`,
+		`{ __schema { types { inputFields { type { inputFields { type { inputFields { name } } } } } } } }`,
+		`{ __schema { types { fields { type { interfaces { possibleTypes { name } } } } } } }`,
+		`{ __schema { types { fields { type { interfaces { name } } } } } }`,
+		`{ a: __schema { types { fields { name } } } b: __schema { types { fields { name } } } }`,
+		`{ __schema { types { ofType { ofType { ofType { ofType { name } } } } } } }`,
+		`{ pet { __typename } __typename }`,
+		`{ __schema { types { ...T1 } } } fragment T1 on __Type { fields { type { ...T2 } } } fragment T2 on __Type { fields { type { fields { name } } } }`,
+		`{ __schema { types { ...T1 } } } fragment T1 on __Type { fields { type { ...T2 } } } fragment T2 on __Type { fields { name } }`,
+		`{ __schema { types { ...T1 } } } fragment T1 on __Type { fields { type { ...T2 } } } fragment T2 on __Type { name }`,
+		`{ __schema { types { ...T3 } } } fragment T3 on __Type { fields { type { fields { type { name } } } } }`,
+		`{ __schema { types { ...TF fields { type { fields { type { ...TF } } } } } } } fragment TF on __Type { name fields { name } }`,
+		`{ __schema { types { fields { type { fields { type { ...TF } } } } ...TF } } } fragment TF on __Type { name fields { name } }`,
+		`{ __schema { types { ...TF fields { type { ...TF } } } } } fragment TF on __Type { name fields { name } }`,
+		`{ __schema { types { ...TF fields { type { fields { type { ...TF } } } } } } } fragment TF on __Type { name }`,
+		`{ __type(name: "Q") { ...TF interfaces { possibleTypes { ...TF } } } } fragment TF on __Type { name inputFields { name } }`,
+		`{ __type(name: "Q") { ...TF interfaces { ...TF } } } fragment TF on __Type { name inputFields { name } }`,
+		`{ __schema { types { ...TG } queryType { fields { type { fields { type { ...TG } } } } } } } fragment TG on __Type { ...TH } fragment TH on __Type { fields { name } }`,
+		`{ __schema { types { ...TG } queryType { fields { type { ...TG } } } } } fragment TG on __Type { ...TH } fragment TH on __Type { fields { name } }`,
+		`{ __schema { types { ...TC } } } fragment TC on __Type { fields { type { ...TC } } }`,
+		`{ __schema { types { ... on __Type { fields { type { ... on __Type { fields { type { fields { name } } } } } } } } } }`,
+		`query A { __schema { types { ...TF } } } query B { __schema { types { fields { type { fields { type { ...TF } } } } } } } fragment TF on __Type { name fields { name } }`,
+		`query B { __schema { types { fields { type { fields { type { ...TF } } } } } } } query A { __schema { types { ...TF } } } fragment TF on __Type { name fields { name } }`,
+	}}},
 	{Name: "links", Template: `query Q($v: Int = 1, $k: Kind!, $f: Filter, $vs: [Int]!, $nn: Int!) §0 { u1: search(n: $v, ks: [$k], f: $f) { __typename } u2: list(xs: [$vs]) u3: req(a: $nn) ...LF §1 §2 } fragment LF on Query { lf: id §3 ...LG } fragment LG on Query { lg: id §4 } mutation M($in: Filter!) { set(in: $in) { id } } subscription S { tick(every: 1) }`,
 		Holes: [][]string{
 			{``, `@tag(name: "op")`, `@once(v: $v) @tag(name: "a") @tag(name: "b", n: $v)`},
